@@ -53,7 +53,15 @@ Definition sc_barrier : Z := SUCCESS.
 Definition sc_type_size (t : Z) : Z * option Z := (SUCCESS, Some (s32 (sc_mpi_sizeof t))).
 (* *size after sc_MPI_Pack_size: `*size = sc_mpi_sizeof (t); *size *= incount;` *)
 Definition pack_bytes (incount t : Z) : Z := s32 (s32 (sc_mpi_sizeof t) * incount).
-Definition sc_pack_size (incount t : Z) : Z * option Z := (SUCCESS, Some (pack_bytes incount t)).
+(* sc_MPI_Pack_size (repair of F-C16d): Type_size stores the size of one element; if `incount > 0 && *size > INT_MAX / incount`
+   (the number of bytes is not representable in an int) ERR_NO_SPACE is returned and *size stays the element size; otherwise the
+   product is stored *)
+Definition pack_size_refuses (incount tsize : Z) : bool := (0 <? incount) && (s32 (cdiv 2147483647 incount) <? tsize).
+Definition pack_size_code (incount t : Z) : Z :=
+  if pack_size_refuses incount (s32 (sc_mpi_sizeof t)) then ERR_NO_SPACE else SUCCESS.
+Definition pack_size_value (incount t : Z) : Z :=
+  if pack_size_refuses incount (s32 (sc_mpi_sizeof t)) then s32 (sc_mpi_sizeof t) else pack_bytes incount t.
+Definition sc_pack_size (incount t : Z) : Z * option Z := (pack_size_code incount t, Some (pack_size_value incount t)).
 
 (* the space test `size > limit - *position` in int arithmetic (repair of F-C16c; for 0 <= position and 0 <= limit the
    difference cannot overflow; position > limit gives a negative difference: refused for every size >= 0) *)
@@ -66,27 +74,40 @@ Definition unpack_copy (position size : Z) : Z * Z * Z := (0, position, u64 size
 Definition pack_advance (position size : Z) : Z := s32 (position + size).
 
 (* result: code, output buffer, *position *)
+(* Pack / Unpack return the code of Pack_size if it is not SUCCESS (nothing changes) *)
 Definition sc_pack (inbuf : list Z) (incount t : Z) (outbuf : list Z) (outsize position : Z) : Z * option (list Z) * Z :=
+  let rc := pack_size_code incount t in
+  let size := pack_size_value incount t in
+  if negb (rc =? SUCCESS) then (rc, Some outbuf, position)
+  else if pack_refuses position size outsize then (ERR_NO_SPACE, Some outbuf, position)
+  else let '(d, s, n) := pack_copy position size in (SUCCESS, memcpy_at outbuf d inbuf s n, pack_advance position size).
+
+(* sc_MPI_Pack before the repair of F-C16d (the product of Pack_size unchecked, the repaired space test): regression guard *)
+Definition sc_pack_nocheck (inbuf : list Z) (incount t : Z) (outbuf : list Z) (outsize position : Z) : Z * option (list Z) * Z :=
   let size := pack_bytes incount t in
   if pack_refuses position size outsize then (ERR_NO_SPACE, Some outbuf, position)
   else let '(d, s, n) := pack_copy position size in (SUCCESS, memcpy_at outbuf d inbuf s n, pack_advance position size).
 
-(* sc_MPI_Pack as it was before the repair *)
+(* sc_MPI_Pack as it was before the repair of F-C16c (old space test, unchecked product) *)
 Definition sc_pack_old (inbuf : list Z) (incount t : Z) (outbuf : list Z) (outsize position : Z) : Z * option (list Z) * Z :=
   let size := pack_bytes incount t in
   if pack_refuses_old position size outsize then (ERR_NO_SPACE, Some outbuf, position)
   else let '(d, s, n) := pack_copy position size in (SUCCESS, memcpy_at outbuf d inbuf s n, pack_advance position size).
 
 Definition sc_unpack (inbuf : list Z) (insize position : Z) (outbuf : list Z) (outcount t : Z) : Z * option (list Z) * Z :=
-  let size := pack_bytes outcount t in
-  if pack_refuses position size insize then (ERR_NO_SPACE, Some outbuf, position)
+  let rc := pack_size_code outcount t in
+  let size := pack_size_value outcount t in
+  if negb (rc =? SUCCESS) then (rc, Some outbuf, position)
+  else if pack_refuses position size insize then (ERR_NO_SPACE, Some outbuf, position)
   else let '(d, s, n) := unpack_copy position size in (SUCCESS, memcpy_at outbuf d inbuf s n, pack_advance position size).
 
 (* code, new position and whether an accepted copy leaves a buffer of `limit` bytes, without the buffers (for buffers
    too large to be lists: positions near INT_MAX); MpiProofs.pack_codes_spec ties them to sc_pack / sc_unpack *)
 Definition sc_pack_codes (count t limit position : Z) : Z * Z * bool :=
-  let size := pack_bytes count t in
-  if pack_refuses position size limit then (ERR_NO_SPACE, position, false)
+  let rc := pack_size_code count t in
+  let size := pack_size_value count t in
+  if negb (rc =? SUCCESS) then (rc, position, false)
+  else if pack_refuses position size limit then (ERR_NO_SPACE, position, false)
   else (SUCCESS, pack_advance position size, negb ((0 <=? position) && (position + u64 size <=? limit))).
 
 (* ---- communicators and groups (sc_mpi.c:61-157) ---- *)
